@@ -277,3 +277,8 @@ def schema_ok(instance, defaults, kwargs):
         return True
     except jsonschema.ValidationError:
         return False
+
+
+def define(cond):
+    """an instance of the definition of an uninterpreted spec predicate (trusted)"""
+    return True
